@@ -4,6 +4,9 @@ C10 — line protocol of the codec machine and the observable-level monitor.
 Lines (one case = one decoder instance):
   codec <name>        ;; ok
   reset               ;; ok                    fresh decoder and buffer (the encoded frames are kept)
+  expect-resync <i> <what> ;; ok                    declares: the streams fed from now on are the encoded stream with bytes
+                                               changed only inside frame <i>, every length field intact
+  end                 ;; ok                    end of one decoder run of such a stream (the monitor takes stock)
   enc <msg>           ;; frame <hex>           the real `Encoder` output for <msg> (model: `enc`)
   feed <hex>          ;; <status> [<msg> …]    append the bytes, call `decode` until it stops answering
                                                `Ok(Some(_))`; status ∈ more | err | panic | abort | hang | dead;
@@ -244,6 +247,8 @@ def machineStep (st : Option Live) (line : String) : Option Live × String :=
     match st with
     | some l => (some ⟨l.i, (codecOf l.i).dec.init, [], false⟩, "ok")
     | none => (st, "bad-op")
+  | ["expect-resync", _, _] => (st, if st.isSome then "ok" else "bad-op")
+  | ["end"] => (st, if st.isSome then "ok" else "bad-op")
   | ["enc", msg] =>
     match st with
     | some l => match (codecOf l.i).parse msg with
@@ -265,6 +270,9 @@ structure Mon where
   fed : Bytes := []
   decoded : List String := []
   errSeen : Bool := false           -- an `Err` was returned earlier in this case
+  errs : Nat := 0                   -- number of `Err`s since the last reset
+  resync : Option Nat := none       -- `expect-resync i what`: only the body text of frame `i` is corrupted
+  what : String := ""               -- which text: key / value / rkey / body
   deriving Repr
 
 def isPrefixB : Bytes → Bytes → Bool
@@ -329,7 +337,34 @@ def firstMismatch : List String → List String → Nat
 def Mon.step (m : Mon) (line : String) (out : String) : Mon × Option String :=
   match words line with
   | ["codec", name] => ({ codec := name }, if out == "ok" then none else some "codec-not-supported-by-harness")
-  | ["reset"] => ({ m with fed := [], decoded := [], errSeen := false }, if out == "ok" then none else some "unparsable")
+  | ["reset"] =>
+    ({ m with fed := [], decoded := [], errSeen := false, errs := 0 }, if out == "ok" then none else some "unparsable")
+  | ["expect-resync", i, what] =>
+    match i.toNat? with
+    | some i => ({ m with resync := some i, what := what }, if out == "ok" then none else some "unparsable")
+    | none => (m, some "unparsable")
+  | ["end"] =>
+    -- body corruption with intact framing: the damaged frame gives exactly one outcome (an error, or a message if
+    -- its text still parses), every other frame is decoded exactly as encoded, nothing is lost or invented
+    match m.resync with
+    | none => (m, none)
+    | some i =>
+      let stream := m.frames.flatten
+      let startI := ((m.frames.take i).map List.length).sum
+      let endI := startI + (m.frames.getD i []).length
+      let kind := kindOf (m.msgs.getD i "?") ++ ":" ++ m.what
+      if m.fed.length != stream.length || !(isPrefixB (m.fed.take startI) stream)
+          || m.fed.drop endI != stream.drop endI then (m, some s!"harness-resync-stream-malformed:{m.codec}")
+      else if listEqS m.decoded (m.msgs.take i ++ m.msgs.drop (i + 1)) then
+        (if m.errs == 1 then (m, none)
+         else if m.errs == 0 then (m, some s!"resync-damaged-frame-vanished:{m.codec}:{kind}")
+         else (m, some s!"resync-extra-errors:{m.codec}:{kind}"))
+      else if m.decoded.length == m.msgs.length && listEqS (m.decoded.take i) (m.msgs.take i)
+          && listEqS (m.decoded.drop (i + 1)) (m.msgs.drop (i + 1)) then
+        (if m.errs == 0 then (m, none) else (m, some s!"resync-extra-errors:{m.codec}:{kind}"))
+      else if listEqS (m.decoded.take i) (m.msgs.take i) then
+        (m, some s!"resync-later-frames-lost:{m.codec}:{kind}")
+      else (m, some s!"resync-earlier-frames-wrong:{m.codec}:{kind}")
   | ["enc", msg] =>
     match (match words out with | ["frame", h] => bytesOfHex h | _ => none) with
     | some bs =>
@@ -346,7 +381,8 @@ def Mon.step (m : Mon) (line : String) (out : String) : Mon × Option String :=
       if status == "dead" then (m, none) else
       let fed := m.fed ++ chunk
       let decoded := m.decoded ++ items
-      let m' := { m with fed := fed, decoded := decoded, errSeen := m.errSeen || status == "err" }
+      let m' := { m with fed := fed, decoded := decoded, errSeen := m.errSeen || status == "err",
+                         errs := m.errs + (if status == "err" then 1 else 0) }
       let stream := m.frames.flatten
       if isPrefixB fed stream then
         -- valid stream so far: exactly the completely received frames must have been delivered, unchanged
